@@ -291,6 +291,10 @@ func genCase(t *rapid.T) Case {
 	}
 	if rapid.Bool().Draw(t, "hasversion") {
 		c.Version = genString(t, 0)
+		if rapid.IntRange(0, 2).Draw(t, "vershape") == 2 {
+			// the project's own version is free text: things that look like versions without being canonical
+			c.Version = rapid.SampledFrom([]string{"v1", "v1.2", "v1.2.3+build.5", "1.2.3", "v01.2.3", "v1.2.3-rc.1+meta", "v0", "v2.0", "V1.0.0", "v1.2.3 ", "v1.0.0", "latest", "v1.2.3.4"}).Draw(t, "version")
+		}
 	}
 	ni := rapid.IntRange(0, 3).Draw(t, "nignore")
 	for i := 0; i < ni; i++ {
